@@ -50,7 +50,7 @@ func TestVerif_C09_racestress(t *testing.T) {
 		var oc c09Outcome
 		if txt, bad := verifh.Safely(func() { oc = c09RunRound(t, rd, guarded) }); bad {
 			s.Crash(fmt.Sprintf("round %d", i), rd.kind, txt, "")
-			continue
+			break // a panicking / wedged round leaves goroutines behind: stop the lane
 		}
 		s.Count("round-" + rd.kind)
 		ok := oc.tagsOK && len(oc.unexpected) == 0
